@@ -54,7 +54,7 @@ def _sys(pid, tier, seed, own, fams, nq, nt, cq, ct, emphasis=None, size_q="smal
 
 
 def check_C01(tier, seed):
-    return _sys("C01", tier, seed, ["C01", "C03"], ["mixed", "ties", "zerodelay", "fanout", "mixed", "single"], 8, 40, 5, 12)
+    return _sys("C01", tier, seed, ["C01", "C03"], ["mixed", "ties", "zerodelay", "fanout", "chain", "single", "mixed", "chain"], 8, 40, 5, 12)
 
 
 def check_C03(tier, seed):
@@ -82,7 +82,17 @@ def _sys_dist(pid, tier, seed, own, fams, nq, nt, cq, ct, emphasis, dq, dt, size
 def check_C04(tier, seed):
     em = lambda r: {"batch": r.choice([1, 1, 1, 2]), "period": r.choice([0, 0, 0, 20]), "threads": r.choice([2, 2, 3, 3, 4]),
                     "skew": r.choice([0, 30, 150, 600])}
-    return _sys_dist("C04", tier, seed, ["C04"], ["mixed", "fanout", "zerodelay", "ties"], 6, 30, 5, 12, em, 6, 14, "small", "medium")
+    c = syscamp.Campaign("C04", tier, seed, own_ids=["C04"])
+    try:
+        c.build(dist=True)
+        c.run(_models(tier, seed, ["mixed", "fanout", "zerodelay", "ties"], 4, 24, "small", "medium"), 5 if tier == "quick" else 12, emphasis=em)
+        # rollback cascades that outlast a GVT round: one anti-message per hop walking through the LPs of two threads
+        cem = lambda r: {"period": 0, "skew": r.choice([0, 0, 100, 300]), "policy": r.choice([0, 0, 2]), "ckpt": r.choice([1, 2, 0])}
+        c.run(_models(tier, seed + 9, ["chain"], 5, 40, "small", "medium"), 6 if tier == "quick" else 14, emphasis=cem)
+        c.run(_models(tier, seed + 50, ["mixed", "fanout", "zerodelay"], 3, 15), 6 if tier == "quick" else 14, emphasis=DIST_EM)
+        return c.finish()
+    finally:
+        c.close()
 
 
 def _alloc_runs(tier, seed):
@@ -120,7 +130,7 @@ def check_C05(tier, seed):
 
 def check_C06(tier, seed):
     em = lambda r: {"switch": r.choice(["1/2", "1/8", "1/24", "1/96"]), "threads": r.choice([2, 3, 4, 6])}
-    return _sys_dist("C06", tier, seed, ["C06"], ["fanout", "mixed", "fanout", "zerodelay", "ties"], 6, 30, 5, 12, em, 6, 14)
+    return _sys_dist("C06", tier, seed, ["C06"], ["fanout", "chain", "mixed", "fanout", "zerodelay", "chain", "ties"], 7, 30, 5, 12, em, 6, 14)
 
 
 def _mc(spec, cfg, workers=8, timeout=1200, heap="8g"):
